@@ -169,6 +169,10 @@ func tryRecursiveValidate(val reflect.Value, opts *options, validators []validat
 	if err != nil {
 		return err
 	}
+	if val.Kind() == reflect.Interface {
+		// the value held by an interface{} field validates itself
+		return tryValidate(val.Elem())
+	}
 	return tryValidate(val)
 }
 
